@@ -100,6 +100,12 @@ static const Scenario kScenarios[] = {
             "a.c b.c c.c hdr", "b.o obj/c.o", { { "a.o", "hdr", 0, NULL }, { "b.o", "hdr", 0, NULL }, { "obj/c.o", "hdr", 0, NULL }, { "pruned", "", REMOVES_EMPTY_DIRS, NULL }, { NULL } } },
   /* 44 */ { "dyndep_input_also_order_only", { RULES "rule mkdd\n  command = scan $in > $out\nbuild dd: mkdd ddsrc\nbuild h2: cc s\nbuild out: cc in || dd h2\n  dyndep = dd\nbuild x: cc out\n", NULL, NULL },
             "ddsrc s in", "x out", { { "dd", "", 0, "ninja_dyndep_version = 1\nbuild out: dyndep | h2\n" }, { "out", "h2", 0, NULL }, { NULL } } },
+  /* 45 */ { "restat_and_plain_inputs", { RULES "build bo: cc sb\nbuild ao: gen sa\nbuild c: cc bo ao\n", NULL, NULL },
+            "sa sb", "c", { { "ao", "", KEEP_IF_SAME | HALVE, NULL }, { NULL } } },
+  /* 46 */ { "pool_depth2_wide", { RULES "pool p\n  depth = 2\nbuild w1: cc s1\n  pool = p\nbuild w2: cc s2\n  pool = p\nbuild w3: cc s3\n  pool = p\nbuild top: cc w1 w2 w3\n", NULL, NULL },
+            "s1 s2 s3", "top", { { NULL } } },
+  /* 47 */ { "dyndep_clean_root", { RULES "rule mkdd\n  command = scan $in > $out\nbuild dd: mkdd ddsrc\nbuild pre: cc pre.in\nbuild lib: cc lib.in || pre\nbuild out: cc in || dd\n  dyndep = dd\n", NULL, NULL },
+            "ddsrc pre.in lib.in in", "out", { { "dd", "", 0, "ninja_dyndep_version = 1\nbuild out: dyndep | lib\n" }, { "out", "lib", 0, NULL }, { NULL } } },
 };
 #ifndef SCENARIO
 #define SCENARIO 0
